@@ -18,7 +18,8 @@ RULE = ("cases = (scenario X, scenario Y, history of A on X, schedule of foreign
         "B on Y, reset B, step B (own seeds), drop B, construct a third environment (on X, Y or a shipped scenario). After EVERY "
         "foreign operation A' is re-read and must equal the reference; every step of A' must equal the reference step. Pairs: Y == X, "
         "same layout / different content, different layouts. Also make_benchmark_scenario(name, seed) before/after calls with other "
-        "seeds. Non-trivial = X and Y have different vector layouts and at least one foreign operation lies between two steps of A'; "
+        "seeds. In a quarter of the cases the actions are Action objects built with the public constructors, one object per action "
+        "shared by all environments of the case (B performs the object A' is about to use). Non-trivial = X and Y have different vector layouts and at least one foreign operation lies between two steps of A'; "
         "distinct by (X, Y, schedule).")
 
 
@@ -110,6 +111,9 @@ def run_case(case, rep, record=True):
         # ------------------------------------------------ reference: A alone
         hA = walk.build_harness(case["x"], modes)
         specX = hA.spec
+        shared_objs = {}
+        builders = {}
+        fresh = {}
         concrete = []       # (kind, real action, seed)
         ref_views = [view(hA.env, render)]
         ref_steps = []
@@ -124,6 +128,11 @@ def run_case(case, rep, record=True):
                 act = hA.choose(op)
                 side, seed, draw = hA.pick_seed(act, op[-2], op[-1])
                 a = hA.real_action(act)
+                if case.get("action_objects") and act.kind != "noop":
+                    # Action objects are accepted by step(): one object per abstract action, made with the public
+                    # constructors and used by every environment of this case (the reference run, A' and B)
+                    a = shared_objs.setdefault(act.key(), hA.hand_built(act))
+                    builders[id(a)] = (act.key(), lambda act=act, hb=walk.Harness.hand_built: hb(None, act))
                 np.random.seed(seed)
                 out = hA.env.step(a)
                 hA.mst = hA.dyn(hA.env.current_state.tensor)
@@ -161,6 +170,11 @@ def run_case(case, rep, record=True):
         check_view(0, "construction of A'")
         sched = case["schedule"]
         for i, (kind, a, seed) in enumerate(concrete):
+            if id(a) in builders:
+                # a second set of objects for this run (the reference run must not have touched them): B may
+                # be the first environment to perform an object that A' uses afterwards
+                key, mk = builders[id(a)]
+                a = fresh.setdefault(key, mk())
             for fop in (sched[i] if i < len(sched) else []):
                 name = fop[0]
                 if name == "construct_B":
@@ -197,6 +211,15 @@ def run_case(case, rep, record=True):
                 if record:
                     rep.count("foreign:" + name)
                 check_view(i, name)
+            if case.get("action_objects") and kind == "step" and B[0] is not None and not isinstance(a, (int, list)) \
+                    and usable_in(a, scnY):
+                # B performs the very Action object A' is about to use
+                np.random.seed(seed + 1)
+                B[0].step(a)
+                foreign_between += 1
+                if record:
+                    rep.count("foreign:step_B-with-A's-action-object")
+                check_view(i, "B performs A's next Action object")
             if kind == "reset":
                 o, _ = envA.reset()
                 if np.asarray(o).tobytes() != ref_steps[i]["obs"]:
@@ -235,6 +258,18 @@ def run_case(case, rep, record=True):
         fail(Failure("C19:exception", f"{type(e).__name__}: {e} at {where} while A' was interleaved with other environments",
                      bucket=f"C19:exception:{type(e).__name__}@{where}"))
     return failed
+
+
+def usable_in(a, scn):
+    """can the Action object be performed in an environment of scenario scn?  (its target is an address of
+    scn and the names it refers to are defined there)"""
+    if scn is None or tuple(a.target) not in [tuple(x) for x in scn.address_space]:
+        return False
+    if a.is_exploit():
+        return a.service in scn.services and (a.os is None or a.os in scn.os)
+    if a.is_privilege_escalation():
+        return a.process in scn.processes and (a.os is None or a.os in scn.os)
+    return True
 
 
 def do_foreign(fop, state, build_y, scnX):
@@ -441,7 +476,11 @@ def cases(draw, tier):
         pre.append(("construct_B", {"fully_obs": False, "flat_actions": True, "flat_obs": True}))
         if draw(st.integers(0, 3)) == 0:
             pre.append(("third", "y"))
-    return dict(x=x, y=y, ops=ops, schedule=sched, modes=modes, render=draw(st.integers(0, 2)) == 0, pre=pre)
+    action_objects = draw(st.integers(0, 3)) == 0
+    if action_objects and not pre:
+        pre.append(("construct_B", {"fully_obs": False, "flat_actions": True, "flat_obs": True}))
+    return dict(x=x, y=y, ops=ops, schedule=sched, modes=modes, render=draw(st.integers(0, 2)) == 0, pre=pre,
+                action_objects=action_objects)
 
 
 class _Runner:
